@@ -7,7 +7,7 @@ MAXLOOP = 6      # only used by the *oracle's* "fits in the budget" clause: expa
 
 PKGS = ["p", "q.r", "com.x"]
 CLSS = ["A", "B", "Svc", "Repo"]
-MTHS = ["a", "b", "c", "run", "get\"x", "m1"]
+MTHS = ["a", "b", "c", "run", "get\"x", "m1", "say\"hi\""]      # (names with one and with two quotes)
 
 
 def gen_model(rng, wide=False):
@@ -54,8 +54,11 @@ def pick_root(rng, decl):
     if decl and r < 0.85:
         pk, cn, mn = rng.choice(decl)
         return "%s.%s.%s" % (pk, cn, mn)
-    if r < 0.93:
+    if r < 0.90:
         return "no.Such.method"
+    if r < 0.95 and decl:
+        pk, cn, mn = rng.choice(decl)
+        return "%s.%s" % (pk, cn)          # the full name of a CLASS of the model: no method, so nothing is reachable from it
     return ""
 
 
